@@ -705,7 +705,17 @@ class TorConfig:
                 )
             socks_config = self.SocksPort[0]
         else:
-            if not any([socks_config in port for port in self.SocksPort]):
+            # a configured line is the one asked for if it is that
+            # very line, or if its first word (what follows are option
+            # words) names the same listener -- not merely if the text
+            # asked for occurs somewhere in it ("9050" in "19050")
+            def listener(line):
+                words = str(line).split()
+                first = words[0] if words else ''
+                return '127.0.0.1:' + first if first.isdigit() else first
+            if not any([str(socks_config) == str(port) or
+                        listener(socks_config) == listener(port)
+                        for port in self.SocksPort]):
                 # need to configure Tor
                 self.SocksPort.append(socks_config)
                 try:
